@@ -4,6 +4,8 @@ import (
 	"bytes"
 	"encoding/json"
 	"fmt"
+	"sync"
+	"sync/atomic"
 
 	"verifharness/internal/gen"
 	"verifharness/internal/real"
@@ -465,6 +467,78 @@ func runC01(c *ctx) {
 		c.Class("message-longer-than-16MiB")
 		c01Eval(c, c01Case{Source: "constructors", Msg: gg.Msg(&ref.Item{Kind: ref.L, Children: []*ref.Item{half, half}}, true)})
 	}
+	// arrays of more than a million values, every multi-value format (decoders that size their buffers by classes)
+	for _, k := range []ref.Kind{ref.B, ref.BOOLEAN, ref.U1, ref.I2, ref.U4, ref.F4, ref.F8, ref.I8} {
+		n := 1<<20 + 1
+		if n*k.Width() > ref.MaxBytes {
+			n = ref.MaxBytes / k.Width()
+		}
+		it := &ref.Item{Kind: k, Slots: make([]ref.Slot, n)}
+		it.Slots[0].Uint, it.Slots[n-1].Uint = 1, 1
+		if k.IsFloat() {
+			it.Slots[0].Uint, it.Slots[n-1].Uint = 0, 0
+		}
+		gg := gen.New(r, gen.Profile{})
+		c.Class("arrays-beyond-a-million-values")
+		c01Eval(c, c01Case{Source: "constructors", Msg: gg.Msg(it, true)})
+	}
+	// the first encodings of a message completed from a template, asked for by eight goroutines at the same moment: each
+	// gets the bytes of the complete message
+	for round := 0; round < c.pick(200, 2000); round++ {
+		rr := rng.New(uint64(1700 + round))
+		gg := gen.New(rr, gen.Profile{MaxDepth: 2, Vars: true, PlainNames: true, Budget: 200, MaxKids: 4, MaxElems: 4})
+		tpl := gg.Tree()
+		if len(tpl.Vars()) == 0 {
+			continue
+		}
+		sub := fullAssignment(gg, tpl)
+		filled, ok := ref.Fill(tpl, sub)
+		if !ok {
+			continue
+		}
+		m := gg.Msg(filled, true)
+		raw := map[string]interface{}{}
+		for name, v := range sub {
+			raw[name] = rawOf(v)
+		}
+		var msg *ast.DataMessage
+		if o := real.Try(func() {
+			t := *m
+			t.Item, t.W, t.Session = tpl, 2, -1
+			if m.Function%2 == 0 {
+				t.W = m.W
+			}
+			msg = real.BuildMsg(&t).FillVariables(raw).SetWaitBit(m.W == 1).SetSessionIDAndSystemBytes(m.Session, m.Sys[:])
+		}); o.Panicked {
+			continue
+		}
+		want := ref.EncodeMessage(m)
+		const G = 8
+		var arrived int32
+		got := make([][]byte, G)
+		var wg sync.WaitGroup
+		for g := 0; g < G; g++ {
+			wg.Add(1)
+			go func(g int) {
+				defer wg.Done()
+				defer func() { recover() }()
+				atomic.AddInt32(&arrived, 1)
+				for atomic.LoadInt32(&arrived) < G {
+				}
+				got[g] = msg.ToBytes()
+			}(g)
+		}
+		wg.Wait()
+		c.NoteBulk(G, G)
+		c.Class("first-encodings-asked-by-several-goroutines")
+		for g := range got {
+			if !bytes.Equal(got[g], want) {
+				c.Violation("C01/first-encoding-under-concurrency", fmt.Sprintf("a message completed from a template, encoded for the first time by %d goroutines at once: goroutine %d got %d bytes %x, the message is %x", G, g, len(got[g]), clipB(got[g]), clipB(want)), c01Case{Source: "template", Msg: m, Tpl: tpl, Sub: sub})
+				round = 1 << 30
+				break
+			}
+		}
+	}
 	// nesting chains
 	for _, depth := range []int{1, 2, 10, 40, c.pick(200, 2000)} {
 		it := &ref.Item{Kind: ref.U2, Slots: []ref.Slot{{Uint: 0xBEEF}}}
@@ -507,7 +581,7 @@ func runC01(c *ctx) {
 	}
 	g := gen.New(r, gen.Profile{})
 	c01Eval(c, c01Case{Source: "constructors", Msg: g.Msg(&ref.Item{Kind: ref.L, Children: []*ref.Item{all, allA}}, true)})
-	c.Required = []string{"source/constructors", "source/template", "source/sml", "source/decoder", "source/restamped", "lists-of-empty-items", "items-at-the-size-limit", "message-longer-than-16MiB", "receive-buffer-reused", "template/first-message-re-checked-after-a-second-derivation", "nesting-chain", "nesting-chain-with-siblings", "shape/maxlenbytes=2", "shape/maxlenbytes=3"}
+	c.Required = []string{"source/constructors", "source/template", "source/sml", "source/decoder", "source/restamped", "lists-of-empty-items", "items-at-the-size-limit", "message-longer-than-16MiB", "receive-buffer-reused", "arrays-beyond-a-million-values", "first-encodings-asked-by-several-goroutines", "template/first-message-re-checked-after-a-second-derivation", "nesting-chain", "nesting-chain-with-siblings", "shape/maxlenbytes=2", "shape/maxlenbytes=3"}
 }
 
 func replayC01(c *ctx, raw json.RawMessage) {
